@@ -27,15 +27,19 @@ chk("C02", "model_checking",
 chk("C03", "model_checking",
     "Design model BadsRun.tla checked exhaustively by TLC for all search/poll outcome sequences (budget, iteration bound, honest count, "
     "truthful message, termination under fairness, tight non-progress bound); every real run is validated step by step against the same "
-    "rules (BadsRules.tla) using the loop_end hook, so the model's guarantees transfer to the code paths actually taken.",
+    "rules (BadsRules.tla) using the loop_end hook, AND checked to be a behaviour of BadsRun.tla itself (BadsRunRefine.tla: the design's own "
+    "actions with logged arguments, per-run constants), so the model's guarantees transfer to the code paths actually taken; budget, iteration "
+    "bound and mesh invariants additionally proved for unbounded parameters by an inductive invariant (Apalache, BadsCtlApa.tla).",
     RUN_NOTE, "TLC model checking of BadsRun.tla (safety+liveness) + TLA+ trace validation of real runs", "DESIGN.md 6 C03")
 chk("C04", "model_checking",
     "Design model proves incumbent = minimum over all evaluated values for every value sequence incl. ties; traces of deterministic runs "
-    "validated: result evaluated, fval observed at x, no lower value evaluated, monotone history, fsd 0, target_type.",
+    "validated: result evaluated, fval observed at x, no lower value evaluated, monotone history, fsd 0, target_type; runs (incl. TLC-simulated "
+    "behaviours of the design scripted into real targets) are accepted as behaviours of BadsRun.tla (BadsRunRefine.tla, incumbent-value bindings).",
     RUN_NOTE, "TLC model checking of BadsRun.tla + TLA+ trace validation of real runs", "DESIGN.md 6 C04")
 chk("C05", "model_checking",
     "Trace validation of noisy runs (auto/declared/specified, final samples 0/1/3/10, tiny noise): final samples at the returned x and last, "
-    "yval_vec/ysd_vec are those observations (rank equality decided in TLC), mean/SEM guards, noise detection rule.",
+    "yval_vec/ysd_vec are those observations (rank equality decided in TLC), mean/SEM guards, noise detection rule; FinalSamplesTaken and the "
+    "budget including the reserve proved for every Budget/NFinal (Apalache inductive invariant).",
     RUN_NOTE, "TLC model checking of BadsRun.tla (final phase) + TLA+ trace validation of real noisy runs", "DESIGN.md 6 C05")
 chk("C09", "exploration",
     "Scenario panels steer real runs onto the rare paths the spec names as actions (empty search set, all ES candidates infeasible, "
@@ -43,7 +47,9 @@ chk("C09", "exploration",
     RUN_NOTE, "steered exploration of real runs, each validated as a behaviour of BadsRunTrace.tla (TLC)", "DESIGN.md 6 C09")
 chk("C13", "model_checking",
     "Mesh exponent rule decided entirely in integers: design model for all outcome sequences; every poll step of every real run checked "
-    "against MeshAfterPoll with an independent success/stall oracle recomputed from the improvement arguments.",
+    "against MeshAfterPoll with an independent success/stall oracle recomputed from the improvement arguments; each run is also accepted "
+    "as a behaviour of BadsRun.tla (BadsRunRefine.tla, mesh-exponent bindings); mesh <= 1 and search mesh <= poll mesh proved for unbounded "
+    "parameters (Apalache inductive invariant).",
     RUN_NOTE, "TLC model checking of BadsRun.tla + TLA+ trace validation of real runs", "DESIGN.md 6 C13")
 
 chk("C10", "fault_enumeration",
